@@ -312,6 +312,8 @@ func errorFacts() {
 	addStr("parseConds", collect("parsley/parse.go", "Parse"), "parse.go Parse: conditions")
 	addStr("optionalBody", normBody("combinator/optional.go", "Optional"), "optional.go")
 	addStr("endConds", collect("parser/end.go", "End"), "end.go")
+	addStr("leftTrimConds", collect("text/trim.go", "LeftTrim"), "trim.go LeftTrim: conditions in source order")
+	addStr("rightTrimConds", collect("text/trim.go", "RightTrim"), "trim.go RightTrim: conditions in source order")
 }
 
 func normBody(rel, fn string) string {
